@@ -191,16 +191,36 @@ func (association *Association) Replace(values ...interface{}) error {
 				}
 			}
 
-			_, pvs := schema.GetIdentityFieldValuesMap(association.DB.Statement.Context, reflectValue, primaryFields)
-			if column, values := schema.ToQueryValues(rel.JoinTable.Table, joinPrimaryKeys, pvs); len(values) > 0 {
-				tx.Where(clause.IN{Column: column, Values: values})
-			} else {
-				return ErrPrimaryKeyRequired
-			}
+			if kind := reflectValue.Kind(); (kind == reflect.Slice || kind == reflect.Array) && reflectValue.Len() > 1 && len(values) == reflectValue.Len() {
+				// one argument per owner: every owner keeps exactly its own new targets
+				ownerConds := make([]clause.Expression, 0, reflectValue.Len())
+				for i := 0; i < reflectValue.Len(); i++ {
+					_, pvs := schema.GetIdentityFieldValuesMap(association.DB.Statement.Context, reflect.Indirect(reflectValue.Index(i)), primaryFields)
+					column, pvalues := schema.ToQueryValues(rel.JoinTable.Table, joinPrimaryKeys, pvs)
+					if len(pvalues) == 0 {
+						return ErrPrimaryKeyRequired
+					}
+					conds := []clause.Expression{clause.IN{Column: column, Values: pvalues}}
 
-			_, rvs := schema.GetIdentityFieldValuesMapFromValues(association.DB.Statement.Context, values, relPrimaryFields)
-			if relColumn, relValues := schema.ToQueryValues(rel.JoinTable.Table, joinRelPrimaryKeys, rvs); len(relValues) > 0 {
-				tx.Where(clause.Not(clause.IN{Column: relColumn, Values: relValues}))
+					_, rvs := schema.GetIdentityFieldValuesMapFromValues(association.DB.Statement.Context, []interface{}{values[i]}, relPrimaryFields)
+					if relColumn, relValues := schema.ToQueryValues(rel.JoinTable.Table, joinRelPrimaryKeys, rvs); len(relValues) > 0 {
+						conds = append(conds, clause.Not(clause.IN{Column: relColumn, Values: relValues}))
+					}
+					ownerConds = append(ownerConds, clause.And(conds...))
+				}
+				tx.Where(clause.Or(ownerConds...))
+			} else {
+				_, pvs := schema.GetIdentityFieldValuesMap(association.DB.Statement.Context, reflectValue, primaryFields)
+				if column, values := schema.ToQueryValues(rel.JoinTable.Table, joinPrimaryKeys, pvs); len(values) > 0 {
+					tx.Where(clause.IN{Column: column, Values: values})
+				} else {
+					return ErrPrimaryKeyRequired
+				}
+
+				_, rvs := schema.GetIdentityFieldValuesMapFromValues(association.DB.Statement.Context, values, relPrimaryFields)
+				if relColumn, relValues := schema.ToQueryValues(rel.JoinTable.Table, joinRelPrimaryKeys, rvs); len(relValues) > 0 {
+					tx.Where(clause.Not(clause.IN{Column: relColumn, Values: relValues}))
+				}
 			}
 
 			association.Error = tx.Delete(modelValue).Error
